@@ -284,6 +284,13 @@ def shape_search(g, k, chk, o):
     if any(isinstance(y, tuple) for y in ys):
         i = next(i for i, y in enumerate(ys) if isinstance(y, tuple))
         return dict(kind="raises", x=xs[i], error=ys[i][1])
+    for x, y in zip(xs, ys):
+        if not math.isfinite(float(y)):
+            return dict(kind="the schedule does not evaluate to a finite number (NaN / inf: malformed thresholds, rates or intercepts)", x=x, y=repr(float(y)),
+                        thresholds=[float(t) for t in np.asarray(v["thresholds"]).tolist()],
+                        intercepts=[repr(float(t)) for t in np.asarray(v["intercepts_at_lower_thresholds"]).tolist()])
+    if chk == "wf":
+        return None
     top = float(np.asarray(v["rates"])[0][-1])
     for i in range(len(xs) - 1):
         dx = xs[i + 1] - xs[i]
@@ -339,8 +346,7 @@ def run(ctx, res):
             chk = "tarif_chk" if "tarif" in o["name"] else "soli_chk" if "soli" in o["name"] else "wf"
             w = None
             try:
-                if chk != "wf":
-                    w = shape_search(g, k, chk, d)
+                w = shape_search(g, k, chk, d)
             except Exception as ex:  # noqa: BLE001
                 w = None
             if w is not None:
